@@ -151,7 +151,7 @@ class Runner(object):
       self.bad('C20/asdict-raised', '%s: %r' % (when, snap))
       return
     snap = snap[1]
-    for k in KEYS + BAD_KEYS[:1]:
+    for k in KEYS + BAD_KEYS[:1] + ['zz']:      # 'zz' is never declared, but loads may carry it
       exp = model.read(k)
       if model.sources(k) >= 2:
         self.flags_hit['multi_source_read'] = True
@@ -165,6 +165,18 @@ class Runner(object):
           src = 'flag' if k in model.flags else 'loaded' if k in model.loaded else 'default'
           self.bad('C20/read-%s/%s-vs-%s' % (name, got[0] if got[0] == 'exc' else 'value', want[1] if want[0] == 'exc' else src),
                    '%s: %s access of %r gave %r, model %r (flags=%r loaded=%r decl=%r)' % (when, name, k, got, want, model.flags, model.loaded, model.decl))
+      # a fourth way of reading: a callable whose positional argument is named after the key (inject_positional_args);
+      # a key that cannot be read is not injected, the call then lacks its argument
+      if k.isidentifier():
+        try:
+          injected = call(conf.inject_positional_args(eval('lambda %s: %s' % (k, k))))      # pylint: disable=eval-used
+        except SyntaxError:
+          injected = None
+        if injected is not None:
+          want_inj = exp if exp[0] == 'value' else ('exc', 'TypeError')
+          if injected[0] != want_inj[0] or (injected[0] == 'value' and not same(injected[1], want_inj[1])) or (injected[0] == 'exc' and injected[1] != want_inj[1]):
+            self.bad('C20/inject-positional-args/%s' % ('value-for-unreadable-key' if want_inj[0] == 'exc' and injected[0] == 'value' else 'disagrees'),
+                     '%s: f(%s) called through inject_positional_args gave %r, the other views give %r' % (when, k, injected, exp))
       has = exp[0] == 'value'
       got_in = call(conf.__contains__, k)
       if got_in != ('value', has):
